@@ -3,7 +3,7 @@
 HOOKS = {
     "guard": "none (no source hook is committed to /repo)",
     "enable": "every check copies /repo's working tree to a scratch directory and redirects sync/atomic, sync.{Mutex,Cond}, runtime.Gosched, "
-              "time.{Now,Until,NewTicker,...} and the linknamed runtime.fastrand to shim packages by AST-positioned text substitution "
+              "time.{Now,Until,NewTicker,...}, channel receive/send/close outside select, and the linknamed runtime.fastrand to shim packages by AST-positioned text substitution "
               "(tools/rewrite); the repository itself is never modified, so there is nothing to switch off",
     "baseline_off_cmd": "cd /repo && go test -vet=off -count=1 ./...",
     "source_commits": [],
